@@ -97,8 +97,17 @@ where
     // finish any unwinding first: joining the children may block, which
     // must not happen while this thread is marked as panicking
     let ret = panic::catch_unwind(panic::AssertUnwindSafe(|| f(&scope)));
-    scope.drop_all();
-    ret.unwrap_or_else(|e| panic::resume_unwind(e))
+    // drop_all re-throws the panic of a child: keep on joining the others
+    // first, for the same reason they must not be joined while unwinding
+    let mut child_panic = None;
+    while let Err(e) = panic::catch_unwind(panic::AssertUnwindSafe(|| scope.drop_all())) {
+        child_panic.get_or_insert(e);
+    }
+    match (ret, child_panic) {
+        (Err(e), _) => panic::resume_unwind(e),
+        (Ok(_), Some(e)) => panic::resume_unwind(e),
+        (Ok(ret), None) => ret,
+    }
 }
 
 impl fmt::Debug for Scope<'_> {
